@@ -97,11 +97,17 @@ type Sched struct {
 	Livelock   bool
 	BlockedOn  []string
 	Preempts   int
+	root       uint64
 }
 
 // New creates a scheduler bound to the chooser (an *mc.Ctx).  Must be called inside a bubble.
 func New(c Chooser) *Sched {
 	s := &Sched{c: c, byGoid: map[uint64]*G{}, wake: make(chan struct{}, 1), MaxSteps: 5000, IdleLimit: time.Hour}
+	// control starts now: goroutines started by the harness between New and Run park at their first
+	// gate.  The creating goroutine (the scheduler itself) is never gated.
+	s.root = goid()
+	cur.Store(s)
+	mode.Store(ModeControlled)
 	return s
 }
 
@@ -121,12 +127,20 @@ func (s *Sched) signal() {
 	}
 }
 
-// Go starts an actor goroutine; it first parks at a "start" gate.
-func (s *Sched) Go(name string, fn func()) {
+// Go starts an actor goroutine; it first parks at a "start" gate.  Run returns when all actors are done.
+func (s *Sched) Go(name string, fn func()) { s.spawn(name, fn, true) }
+
+// GoBG starts a background goroutine under control (deterministic logical id) that Run does not wait for,
+// e.g. an acceptor loop that may stay blocked for ever.
+func (s *Sched) GoBG(name string, fn func()) { s.spawn(name, fn, false) }
+
+func (s *Sched) spawn(name string, fn func(), actor bool) {
 	s.mu.Lock()
-	g := &G{ID: len(s.gs), Name: name, actor: true}
+	g := &G{ID: len(s.gs), Name: name, actor: actor}
 	s.gs = append(s.gs, g)
-	s.actorsLeft++
+	if actor {
+		s.actorsLeft++
+	}
 	s.mu.Unlock()
 	ready := make(chan struct{})
 	go func() {
@@ -138,11 +152,17 @@ func (s *Sched) Go(name string, fn func()) {
 		defer func() {
 			s.mu.Lock()
 			g.done = true
-			s.actorsLeft--
+			if actor {
+				s.actorsLeft--
+			}
 			s.mu.Unlock()
 			s.signal()
 		}()
-		s.gate(Op{Kind: "start"})
+		if actor {
+			s.gate(Op{Kind: "start"})
+		} else {
+			Gate(Op{Kind: "start"}) // no-op once control has ended
+		}
 		fn()
 	}()
 	<-ready
@@ -162,6 +182,9 @@ func Gate(op Op) {
 
 func (s *Sched) gate(op Op) {
 	id := goid()
+	if id == s.root {
+		return
+	}
 	s.mu.Lock()
 	g := s.byGoid[id]
 	if g == nil {
@@ -181,8 +204,6 @@ func Yield(kind string) { Gate(Op{Kind: kind}) }
 
 // Run schedules until every actor has finished.  Returns an error text on deadlock / livelock.
 func (s *Sched) Run() string {
-	cur.Store(s)
-	mode.Store(ModeControlled)
 	defer func() {
 		// hand everything that is still parked back to the (bubble-)free mode
 		mode.Store(ModeFree)
